@@ -138,7 +138,9 @@ def task_group_centres(pr, repo):
                 pool.append(a)
                 return a
 
-            def some(el, owner, lo=0, hi=2):
+            seen_lists = {}
+
+            def some(el, owner, lo=0, hi=3):
                 n = I('n_%s_%d' % (el, len(pool)))
                 ctx.assume(And(n >= lo, n <= hi))
                 k = lo
@@ -147,11 +149,13 @@ def task_group_centres(pr, repo):
                 out = [fresh(el) for _ in range(k)]
                 if owner is not main and el == 'O':
                     out.append(main)        # bonds are symmetric: the carboxyl carbon found from the group's oxygen is bonded to it
+                seen_lists[(owner.name, el)] = list(out)
                 return out
             ex.contracts['propka.atom.Atom.get_bonded_elements'] = lambda ex_, c_, f_, a, k, so: some(a[0] if a else k['element'], so)
-            ex.contracts['propka.atom.Atom.get_bonded_heavy_atoms'] = lambda ex_, c_, f_, a, k, so: some('C', so)
-            ex.contracts['propka.ligand.is_ring_member'] = lambda ex_, c_, f_, a, k, so: (
-                [main] + [fresh('C'), fresh('N'), fresh('C'), fresh('N')] if ctx.branch(B('ring')) else [])
+            ex.contracts['propka.atom.Atom.get_bonded_heavy_atoms'] = \
+                lambda ex_, c_, f_, a, k, so: seen_lists.setdefault((so.name, 'heavy'), some('C', so))
+            ex.contracts['propka.ligand.is_ring_member'] = lambda ex_, c_, f_, a, k, so: list(seen_lists['ring']) if 'ring' in seen_lists else \
+                seen_lists.setdefault('ring', [main] + [fresh('C'), fresh('N'), fresh('C'), fresh('N')] if ctx.branch(B('ring')) else [])
             ex.contracts['propka.protonate.Protonate.protonate_atom'] = lambda ex_, c_, f_, a, k, so: None
 
             def set_center(ex_, c_, f_, a, k, so):
@@ -160,10 +164,31 @@ def task_group_centres(pr, repo):
                     raise PyRaise('ValueError', 'At least one atom must be specified')
                 centre_calls.append(list(atoms))
             ex.contracts['propka.group.Group.set_center'] = set_center
-            ex.contracts['propka.group.Group.set_interaction_atoms'] = lambda ex_, c_, f_, a, k, so: None
+            inter_calls = []
+            ex.contracts['propka.group.Group.set_interaction_atoms'] = lambda ex_, c_, f_, a, k, so: inter_calls.append((list(a[0]), list(a[1])))
             g = record('g', ci, atom=main, type='XX', x=0.0, y=0.0, z=0.0, label='g')
             try:
                 ex.call_function(fi, [], self_obj=g)
+                # second run: the SAME oxygen / hydrogen neighbours handed over in the opposite order (the order of an atom's bond list
+                # depends on where the cell borders of the bond search fall, i.e. on the frame); carbon and nitrogen lists keep their
+                # order: several routines take "the" bonded carbon / nitrogen of an atom that has exactly one
+                first = (list(centre_calls), list(inter_calls))
+                cache = dict(seen_lists)
+                ex.contracts['propka.atom.Atom.get_bonded_elements'] = \
+                    lambda ex_, c_, f_, a, k, so: (lambda el, l: list(reversed(l)) if el in ('O', 'H') else list(l))(
+                        a[0] if a else k['element'],
+                        cache.get((so.name, a[0] if a else k['element']), [main] if (so is not main and (a[0] if a else k['element']) == 'O') else []))
+                ex.contracts['propka.atom.Atom.get_bonded_heavy_atoms'] = lambda ex_, c_, f_, a, k, so: list(cache.get((so.name, 'heavy'), []))
+                del centre_calls[:], inter_calls[:]
+                g2 = record('g', ci, atom=main, type='XX', x=0.0, y=0.0, z=0.0, label='g')
+                ex.call_function(fi, [], self_obj=g2)
+                ids = lambda l: sorted(x.name for x in l)      # noqa
+                same = (len(first[0]) == len(centre_calls) and all(ids(p) == ids(q) for p, q in zip(first[0], centre_calls))
+                        and len(first[1]) == len(inter_calls)
+                        and all(ids(p[0]) == ids(q[0]) and ids(p[1]) == ids(q[1]) for p, q in zip(first[1], inter_calls)))
+                ctx.oblige('GO[%s.setup_atoms]: centre atoms and interaction atoms are the same SETS whatever the order of the bond '
+                           'lists' % ci.name, same)
+                centre_calls[:] = first[0]
             except PyRaise as e:
                 ctx.oblige('GC[%s.setup_atoms]: the only exception is the explicit rejection of an empty atom list' % ci.name,
                            e.exc_name == 'ValueError' and 'At least one atom' in str(e.msg))
@@ -256,7 +281,11 @@ def bounded(pr):
         # rotamer by design): with hetero content present only the heavy-atom quantities are compared, and the pKa values are
         # compared on the amino-acid part alone in the first poses
         has_het = any(l.startswith('HETATM') and l[17:20] != 'HOH' for l in base)
-        variants = [(base, ref, not has_het, poses)]
+        # the ends of the PDB coordinate field: a translation that puts the largest x at 9999.9 / the smallest z at -999.9
+        xs = [float(l[30:38]) for l in base if l[:6] in ('ATOM  ', 'HETATM')]
+        zs = [float(l[46:54]) for l in base if l[:6] in ('ATOM  ', 'HETATM')]
+        edge = [(Ps[0], (round(9999.9 - max(xs), 3), 0.0, 0.0)), (Ps[0], (0.0, 0.0, round(-999.9 - min(zs), 3)))]
+        variants = [(base, ref, not has_het, poses + edge)]
         if has_het:
             aa = [l for l in base if not l.startswith('HETATM')]
             variants.append((aa, native.record(native.run_text(aa), with_label=True), True, poses[:4]))
